@@ -1332,7 +1332,7 @@ mod expression_parser {
                 body: Box::new(body),
               });
             } else {
-              let tuple_elements = parameters_or_tuple_elements_cover
+              let mut tuple_elements = parameters_or_tuple_elements_cover
                 .into_iter()
                 .map(|name| {
                   expr::E::LocalId(
@@ -1345,6 +1345,10 @@ mod expression_parser {
                   )
                 })
                 .collect_vec();
+              // `(a, )`: a one-element cover is a parenthesized expression, not a tuple.
+              if tuple_elements.len() == 1 {
+                return tuple_elements.pop().unwrap();
+              }
               let loc = peeked_loc.union(&right_parenthesis_loc);
               return expr::E::Tuple(
                 expr::ExpressionCommon {
@@ -1634,8 +1638,11 @@ mod expression_parser {
     }
     expressions.truncate(MAX_STRUCT_SIZE);
     let (end_loc, end_comments) = parser.assert_and_consume_operator(TokenOp::RightParenthesis);
+    // `(e, )`: a one-element list is a parenthesized expression, not a tuple.
+    if expressions.len() == 1 {
+      return expressions.pop().unwrap();
+    }
     let loc = start_loc.union(&end_loc);
-    debug_assert!(expressions.len() > 1);
     expr::E::Tuple(
       expr::ExpressionCommon { loc, associated_comments: NO_COMMENT_REFERENCE, type_: () },
       expr::ParenthesizedExpressionList {
